@@ -7,6 +7,7 @@ package verifrt
 
 import (
 	"fmt"
+	"iter"
 	"reflect"
 	"runtime/debug"
 	"sort"
@@ -48,6 +49,7 @@ type thread struct {
 	done    bool
 	started bool
 	epoch   int
+	vc      vclock // vector clock (race detector)
 }
 
 // op describes what a parked thread wants to do.
@@ -103,6 +105,8 @@ type Result struct {
 	Steps     int
 	Threads   int
 	Unfinished []string
+	Forced    int      // scheduling points without a decision (not recorded in Points)
+	Races     []string // unsynchronised conflicting accesses found by the happens-before detector
 }
 
 type runtimeState struct {
@@ -120,6 +124,7 @@ type runtimeState struct {
 	clock    time.Time
 	timers   []*Timer
 	active   bool
+	race     *raceState
 }
 
 var rs = &runtimeState{}
@@ -148,6 +153,7 @@ func Run(chooser Chooser, maxSteps int, envs []*EnvEvent, main func()) *Result {
 	rs.clock = time.Unix(1700000000, 0)
 	rs.timers = nil
 	rs.active = true
+	rs.resetRaceLocked()
 	res := rs.res
 	fin := rs.finished
 	t := rs.newThread("main")
@@ -195,6 +201,12 @@ func (r *runtimeState) newThread(name string) *thread {
 	t := &thread{id: len(r.threads), name: name, wake: make(chan struct{}, 1), epoch: r.epoch}
 	t.op = &op{kind: OpStart, label: name}
 	r.threads = append(r.threads, t)
+	// the go statement orders everything the parent did before it ahead of the child
+	if parent := r.current; parent != nil && parent.epoch == r.epoch {
+		t.vc = parent.vc.copyVC()
+		parent.tick()
+	}
+	t.tick()
 	return t
 }
 
@@ -420,6 +432,17 @@ func (r *runtimeState) scheduleLocked(from *thread) {
 	if from != nil {
 		pt.Running = from.id
 	}
+	if len(enabled) == 1 && runningEnabled && picks[0].t == from {
+		// the running thread is the only one that can move: no decision, no point. (Single-threaded phases
+		// whose length depends on uncontrolled iteration orders do not shift the indices of the real choices.)
+		r.res.Forced++
+		t := picks[0].t
+		r.performLocked(t, picks[0].cas)
+		t.lastRun = r.res.Steps
+		r.current = t
+		t.wake <- struct{}{}
+		return
+	}
 	idx := 0
 	if len(enabled) > 1 || true {
 		idx = r.chooser(&pt)
@@ -487,10 +510,12 @@ func (r *runtimeState) performLocked(t *thread, cas int) {
 	switch o.kind {
 	case OpLock:
 		o.obj.(*MutexState).locked = true
+		acquireVC(t, o.obj.(*MutexState).vc)
 	case OpTryLock:
 		m := o.obj.(*MutexState)
 		if !m.locked {
 			m.locked = true
+			acquireVC(t, m.vc)
 			o.chosenCase = 1
 		} else {
 			o.chosenCase = 0
@@ -498,13 +523,19 @@ func (r *runtimeState) performLocked(t *thread, cas int) {
 	case OpRLock:
 		m := o.obj.(*RWState)
 		m.readers++
+		acquireVC(t, m.wvc)
 	case OpWLock:
 		m := o.obj.(*RWState)
 		m.writer = true
 		m.pendingW--
+		acquireVC(t, m.wvc)
+		acquireVC(t, m.rvc)
+	case OpWait:
+		acquireVC(t, o.obj.(*WGState).vc)
 	case OpAcquire:
 		s := o.obj.(*SemState)
 		s.cur += o.n
+		acquireVC(t, s.vc)
 	case OpSend:
 		r.doSendLocked(o.obj.(*chanState), t)
 	case OpRecv:
@@ -650,4 +681,39 @@ func FireTimers() int {
 		n++
 	}
 	return n
+}
+
+
+// RangeMap replaces the map operand of range statements in instrumented files (option -detmaps): the entries are
+// visited in the order of their printed keys instead of Go's randomised order, so that an execution is a function
+// of the scheduler's choices alone. Entries deleted during the iteration are skipped, values are read when reached.
+func RangeMap[M ~map[K]V, K comparable, V any](m M) iter.Seq2[K, V] {
+	return func(yield func(K, V) bool) {
+		MapR(m)
+		type ent struct {
+			k K
+			s string
+		}
+		es := make([]ent, 0, len(m))
+		for k := range m {
+			var s string
+			switch x := any(k).(type) {
+			case string:
+				s = x
+			default:
+				s = fmt.Sprintf("%v", k)
+			}
+			es = append(es, ent{k, s})
+		}
+		sort.SliceStable(es, func(i, j int) bool { return es[i].s < es[j].s })
+		for _, e := range es {
+			v, ok := m[e.k]
+			if !ok {
+				continue
+			}
+			if !yield(e.k, v) {
+				return
+			}
+		}
+	}
 }
